@@ -19,7 +19,7 @@ RULE = (
     "oracle = exact NumPy reference (an infinity is data). (int) int8/uint8/int16/uint16/int32/uint32 values near the "
     "type limits so that group totals/products exceed the input width but stay < 2**53; sum/nansum/prod/nanprod/mean/"
     "nanmean and var/std; oracle = exact Python-int totals (mean, var: float reference rtol 1e-12); eager + chunked. "
-    "(var) float64 data |x|<=5 not on a dyadic grid, n<=60; var/std/nanvar/nanstd ddof in {0,1}; oracle: |eager-chunked| "
+    "(var) float64 data |x|<=5 not on a dyadic grid, n<=60, asserted for well-conditioned groups only (variance >= 1e-4 * max(1, max|x|^2)); var/std/nanvar/nanstd ddof in {0,1}; oracle: |eager-chunked| "
     "<= 1e-9*|eager|+1e-11 on the variance (std results are squared first: the textbook formula's absolute error "
     "a few n*eps*max|x|^2 ~ 1e-12 is what 'floating-point accuracy for well-conditioned data' allows) and the same vs numpy.var. Non-trivial = (inf) a group whose true extreme is infinite; (int) a "
     "group total beyond the input dtype's range; (var) >=2 blocks."
@@ -162,6 +162,16 @@ def execute(case) -> Outcome:
             out.nontrivial = any(w is not UNSPEC and np.isinf(w) for w in want)
         else:
             out.nontrivial = len(case["plans"][0]["chunks"][0]) >= 2
+            # the property speaks about WELL-CONDITIONED data: groups whose variance is tiny relative to their
+            # magnitude (constant or nearly constant members) are not asserted - a one-pass kernel may legitimately
+            # return a tiny negative variance (NaN std) there
+            pos = group_positions(by)
+            want = list(want)
+            for i, k in enumerate(keys):
+                m = arr[pos[k]].astype(np.float64)
+                m = m[~np.isnan(m)]
+                if m.size < 2 or np.var(m) < 1e-4 * max(1.0, float(np.max(np.abs(m))) ** 2):
+                    want[i] = UNSPEC
     if not keys:
         return out
 
@@ -222,6 +232,7 @@ def execute(case) -> Outcome:
         cres = check(c, pl)
         if kind == "var" and eres is not None and cres is not None:
             a, b = (cres * cres, eres * eres) if "std" in func else (cres, eres)
-            if not bool(np.all(close(a, b, 1e-9, 1e-11))):
+            wellcond = np.array([w is not UNSPEC for w in want])
+            if not bool(np.all(close(a, b, 1e-9, 1e-11) | ~wellcond)):
                 out.add(("var", "eager-vs-chunked"), f"[{pl}] func={func}: chunked {cres.tolist()} vs eager {eres.tolist()}")
     return out
